@@ -5,6 +5,8 @@ From Coq Require Import String NArith ZArith QArith Bool Arith List Permutation 
 From GT Require Import Base.UTree Spec.Obs Model.Reroot Model.Index Model.HashMap Model.EdgeIndex Model.Quartet
      Proofs.IndexBase Proofs.IndexTree Proofs.IndexSplit Proofs.HashMap Proofs.EdgeIndex Proofs.Quartet
      Proofs.Unroot Proofs.IndexEdit.
+From GT Require Import Model.Prune Model.Collapse Model.LocalEdit Model.NNI Model.Outgroup Model.Compare Model.BitsetWords
+     Proofs.Prune Proofs.QuartetEquiv Proofs.IndexEditOps Proofs.IndexCommon Proofs.BitsetWords.
 Import ListNotations.
 Local Close Scope Q_scope.
 Local Open Scope string_scope.
@@ -56,7 +58,7 @@ Theorem counts_spec : forall t ec r,
     r_nright r = length (leaves (snd ec)) /\
     r_nleft r = length (leaves t) - length (leaves (snd ec)) /\
     1 <= r_nright r /\ 1 <= r_nleft r /\
-    topo_depth r = Some (Nat.min (length (leaves t) - length (leaves (snd ec))) (length (leaves (snd ec)))).
+    Model.Index.topo_depth r = Some (Nat.min (length (leaves t) - length (leaves (snd ec))) (length (leaves (snd ec)))).
 Proof. exact Proofs.IndexSplit.counts_spec. Qed.
 Print Assumptions counts_spec.
 
@@ -313,3 +315,229 @@ Proof.
     intros [[-> ->]|[-> ->]]; auto. f_equal. apply Nat.add_comm.
 Qed.
 Print Assumptions hashmap_contract_satisfiable.
+
+(** * Stretch round *)
+
+(** ** quartets over four distinct taxa *)
+(** Compare is not QUARTET_DIFF exactly when the two quartets are over the same four taxa *)
+Theorem q_compare_diff_iff : forall q q',
+    q_distinct q -> q_distinct q' -> (q_compare q q' <> QDiff <-> same_taxa q q').
+Proof. exact Proofs.QuartetEquiv.q_compare_diff_iff. Qed.
+Print Assumptions q_compare_diff_iff.
+
+Theorem q_hash_equals_iff : forall q q',
+    q_distinct q -> q_distinct q' -> (q_hash_equals q q' = true <-> same_taxa q q').
+Proof. exact Proofs.QuartetEquiv.q_hash_equals_iff. Qed.
+Print Assumptions q_hash_equals_iff.
+
+(** QUARTET_EQUALS exactly when the two pairs are the same, in either order (all quartets) *)
+Theorem q_compare_equals_iff : forall q q',
+    q_compare q q' = QEquals <->
+    (same_pair (qt1 q) (qt2 q) (qt1 q') (qt2 q') /\ same_pair (qt3 q) (qt4 q) (qt3 q') (qt4 q')) \/
+    (same_pair (qt1 q) (qt2 q) (qt3 q') (qt4 q') /\ same_pair (qt3 q) (qt4 q) (qt1 q') (qt2 q')).
+Proof. exact Proofs.QuartetEquiv.q_compare_equals_iff. Qed.
+Print Assumptions q_compare_equals_iff.
+
+(** HashEquals is an equivalence on them (and compatible with HashCode: quartet_hash_compat) *)
+Theorem q_hash_equals_equivalence :
+  (forall q, q_hash_equals q q = true) /\
+  (forall q q', q_distinct q -> q_distinct q' -> q_hash_equals q q' = true -> q_hash_equals q' q = true) /\
+  (forall a b c, q_distinct a -> q_distinct b -> q_distinct c ->
+                 q_hash_equals a b = true -> q_hash_equals b c = true -> q_hash_equals a c = true).
+Proof.
+  exact (conj Proofs.QuartetEquiv.q_hash_equals_refl
+              (conj Proofs.QuartetEquiv.q_hash_equals_sym Proofs.QuartetEquiv.q_hash_equals_trans)).
+Qed.
+Print Assumptions q_hash_equals_equivalence.
+
+(** a HashMap keyed by quartets (IndexQuartets) behaves like the association list *)
+Theorem quartet_map_refines :
+  forall (V : Type) (need : nat -> N -> bool) (cap : N) (ops : list (op quartet V)) rs mf,
+    (cap < W64)%N ->
+    ops_ok quartet V q_distinct ops ->
+    run quartet V q_hash_code q_hash_equals need (new_hashmap quartet V cap) ops = Some (rs, mf) ->
+    rs = fst (run_assoc quartet V q_hash_equals [] ops) /\
+    Permutation (key_values quartet V mf) (snd (run_assoc quartet V q_hash_equals [] ops)) /\
+    hm_total mf = length (snd (run_assoc quartet V q_hash_equals [] ops)).
+Proof. exact Proofs.QuartetEquiv.quartet_map_refines. Qed.
+Print Assumptions quartet_map_refines.
+
+Theorem quartet_map_total :
+  forall (V : Type) (need : nat -> N -> bool) (cap : N) (ops : list (op quartet V)),
+    (cap < W64)%N -> ops_ok quartet V q_distinct ops -> no_overflow need ->
+    run quartet V q_hash_code q_hash_equals need (new_hashmap quartet V cap) ops <> None.
+Proof. exact Proofs.QuartetEquiv.quartet_map_total. Qed.
+Print Assumptions quartet_map_total.
+
+(** ** after the colleagues' editing operations: the result is a good tree, hence
+    [tables_describe]: ReinitIndexes succeeds on it and every row describes its branch.
+    "2 <= degree t'" is a hypothesis where the operation's theorems do not give the degree of
+    the new root. *)
+Theorem good_tables : forall t, good t -> tables_describe t.
+Proof. exact Proofs.IndexEditOps.good_tables. Qed.
+Print Assumptions good_tables.
+
+Theorem remove_tips_tables : forall revert names t t',
+    good t -> no_single t = true -> remove_tips revert names t = Ok t' -> 2 <= degree t' ->
+    good t' /\ tables_describe t' /\ Permutation (leaves t') (filter (kept revert names) (leaves t)).
+Proof. exact Proofs.IndexEditOps.remove_tips_tables. Qed.
+Print Assumptions remove_tips_tables.
+
+Theorem remove_edges_tables : forall rr rt sel t,
+    good t -> 2 <= degree (remove_edges rr rt sel t) ->
+    good (remove_edges rr rt sel t) /\ tables_describe (remove_edges rr rt sel t) /\
+    Permutation (leaves (remove_edges rr rt sel t)) (leaves t).
+Proof. exact Proofs.IndexEditOps.remove_edges_tables. Qed.
+Print Assumptions remove_edges_tables.
+
+Theorem collapse_len_tables : forall l rr rt t,
+    good t -> 2 <= degree (collapse_len l rr rt t) ->
+    good (collapse_len l rr rt t) /\ tables_describe (collapse_len l rr rt t) /\
+    Permutation (leaves (collapse_len l rr rt t)) (leaves t).
+Proof. exact Proofs.IndexEditOps.collapse_len_tables. Qed.
+Print Assumptions collapse_len_tables.
+
+Theorem collapse_sup_tables : forall s rr t,
+    good t -> 2 <= degree (collapse_sup s rr t) ->
+    good (collapse_sup s rr t) /\ tables_describe (collapse_sup s rr t) /\
+    Permutation (leaves (collapse_sup s rr t)) (leaves t).
+Proof. exact Proofs.IndexEditOps.collapse_sup_tables. Qed.
+Print Assumptions collapse_sup_tables.
+
+Theorem collapse_depth_tables : forall mn mx rr rt t t',
+    good t -> collapse_depth mn mx rr rt t = Ok t' -> 2 <= degree t' ->
+    good t' /\ tables_describe t' /\ Permutation (leaves t') (leaves t).
+Proof. exact Proofs.IndexEditOps.collapse_depth_tables. Qed.
+Print Assumptions collapse_depth_tables.
+
+Theorem resolve_tables : forall t cs,
+    good t -> 2 <= degree (resolve t cs) ->
+    good (resolve t cs) /\ tables_describe (resolve t cs) /\ Permutation (leaves (resolve t cs)) (leaves t).
+Proof. exact Proofs.IndexEditOps.resolve_tables. Qed.
+Print Assumptions resolve_tables.
+
+Theorem remove_single_tables : forall t,
+    good t -> good (remove_single t) /\ tables_describe (remove_single t) /\
+              Permutation (leaves (remove_single t)) (leaves t).
+Proof. exact Proofs.IndexEditOps.remove_single_tables. Qed.
+Print Assumptions remove_single_tables.
+
+Theorem clone_tables : forall t,
+    good t -> 2 <= degree (clone t) -> good (clone t) /\ tables_describe (clone t) /\ leaves (clone t) = leaves t.
+Proof. exact Proofs.IndexEditOps.clone_tables. Qed.
+Print Assumptions clone_tables.
+
+Theorem merge_tables : forall t1 t2 t' i1 i2,
+    good t1 -> good t2 -> (forall x, In x (leaves t1) -> In x (leaves t2) -> False) ->
+    merge t1 t2 i1 i2 = Ok t' ->
+    good t' /\ tables_describe t' /\ leaves t' = (leaves t1 ++ leaves t2)%list.
+Proof. exact Proofs.IndexEditOps.merge_tables. Qed.
+Print Assumptions merge_tables.
+
+Theorem graft_tables : forall t g t' idx tip,
+    good t -> good g -> (forall x, In x (leaves t) -> In x (leaves g) -> False) ->
+    graft t idx tip g = Ok t' -> 2 <= degree t' ->
+    good t' /\ tables_describe t' /\ Permutation (leaves t' ++ [tip])%list (leaves t ++ leaves g)%list.
+Proof. exact Proofs.IndexEditOps.graft_tables. Qed.
+Print Assumptions graft_tables.
+
+Theorem insert_identical_tables : forall t t' idx groups,
+    good t -> (forall x, In x (leaves t) -> In x idx) -> ~ In ""%string idx ->
+    Forall (fun g => ~ In ""%string g) groups ->
+    insert_identical t idx groups = Ok t' -> 2 <= degree t' ->
+    good t' /\ tables_describe t'.
+Proof. exact Proofs.IndexEditOps.insert_identical_tables. Qed.
+Print Assumptions insert_identical_tables.
+
+Theorem nni_tables : forall t r t',
+    good t -> In r (nni_list t) -> Model.NNI.apply r t = Some t' -> 2 <= degree t' ->
+    good t' /\ tables_describe t' /\ Permutation (leaves t) (leaves t').
+Proof. exact Proofs.IndexEditOps.nni_tables. Qed.
+Print Assumptions nni_tables.
+
+Theorem outgroup_tables : forall strict t names t',
+    good t -> (rooted t = true -> root_has_inner_child t = true) ->
+    reroot_outgroup false strict t names = Ok t' ->
+    good t' /\ tables_describe t' /\ Permutation (leaves t') (leaves t).
+Proof. exact Proofs.IndexEditOps.outgroup_tables. Qed.
+Print Assumptions outgroup_tables.
+
+Theorem outgroup_remove_tables : forall strict t names t',
+    good t -> (rooted t = true -> root_has_inner_child t = true) ->
+    reroot_outgroup true strict t names = Ok t' ->
+    good t' /\ tables_describe t' /\ exists Rm, Permutation (leaves t) (leaves t' ++ Rm)%list.
+Proof. exact Proofs.IndexEditOps.outgroup_remove_tables. Qed.
+Print Assumptions outgroup_remove_tables.
+
+Theorem midpoint_tables : forall t t',
+    good t -> (rooted t = true -> root_has_inner_child t = true) ->
+    reroot_midpoint t = Ok t' ->
+    good t' /\ tables_describe t' /\ Permutation (leaves t') (leaves t).
+Proof. exact Proofs.IndexEditOps.midpoint_tables. Qed.
+Print Assumptions midpoint_tables.
+
+(** ** Tree.CommonEdges over FindEdge (Model/Compare.v) on two good trees on the same taxa *)
+Theorem found_in_iff : forall t1 t2 ec1 r1,
+    good t1 -> good t2 -> Permutation (leaves t1) (leaves t2) -> branch_row t1 ec1 r1 ->
+    (found_in (rows t2) r1 = true <->
+     exists ec2 r2, branch_row t2 ec2 r2 /\ r_tip r2 = r_tip r1 /\
+                    same_split (leaves t1) (leaves (snd ec1)) (leaves (snd ec2))).
+Proof. exact Proofs.IndexCommon.found_in_iff. Qed.
+Print Assumptions found_in_iff.
+
+Theorem common_edges_spec : forall te t1 t2,
+    good t1 -> good t2 -> Permutation (leaves t1) (leaves t2) ->
+    common_edges te t1 t2 =
+    let S := filter (considered te) (rows t1) in
+    let C := filter (found_in (rows t2)) S in
+    Ok ((Z.of_nat (length S) - Z.of_nat (length C))%Z, Z.of_nat (length C)).
+Proof. exact Proofs.IndexCommon.common_edges_spec. Qed.
+Print Assumptions common_edges_spec.
+
+(** ** the bitset package at word level (Model/BitsetWords.v) agrees with the list-bool model,
+    for every length *)
+Theorem w_new_ok : forall n, wb_ok (w_new n) /\ to_bits (w_new n) = bits_new n.
+Proof. exact Proofs.BitsetWords.w_new_ok. Qed.
+Print Assumptions w_new_ok.
+
+Theorem w_clear_all_ok : forall b, wb_ok b -> wb_ok (w_clear_all b) /\ to_bits (w_clear_all b) = bits_new (wb_len b).
+Proof. exact Proofs.BitsetWords.w_clear_all_ok. Qed.
+Print Assumptions w_clear_all_ok.
+
+Theorem w_set_spec : forall b i, wb_ok b -> i < wb_len b ->
+    exists b', w_set b i = Some b' /\ wb_ok b' /\ to_bits b' = set_bit i (to_bits b).
+Proof. exact Proofs.BitsetWords.w_set_spec. Qed.
+Print Assumptions w_set_spec.
+
+Theorem w_test_spec : forall b i, wb_ok b -> w_test b i = Some (test_bit (to_bits b) i).
+Proof. exact Proofs.BitsetWords.w_test_spec. Qed.
+Print Assumptions w_test_spec.
+
+Theorem w_none_spec : forall b, wb_ok b -> w_none b = bits_none (to_bits b).
+Proof. exact Proofs.BitsetWords.w_none_spec. Qed.
+Print Assumptions w_none_spec.
+
+Theorem w_equal_spec : forall a b, wb_ok a -> wb_ok b ->
+    w_equal a b = Some (bits_equal (to_bits a) (to_bits b)).
+Proof. exact Proofs.BitsetWords.w_equal_spec. Qed.
+Print Assumptions w_equal_spec.
+
+(** ComplementTest with the masking of the last word *)
+Theorem w_complement_test_spec : forall a b, wb_ok a -> wb_ok b ->
+    w_complement_test a b = Some (bits_complement (to_bits a) (to_bits b)).
+Proof. exact Proofs.BitsetWords.w_complement_test_spec. Qed.
+Print Assumptions w_complement_test_spec.
+
+Theorem w_equal_or_complement_spec : forall a b, wb_ok a -> wb_ok b ->
+    w_equal_or_complement a b = Some (equal_or_complement (to_bits a) (to_bits b)).
+Proof. exact Proofs.BitsetWords.w_equal_or_complement_spec. Qed.
+Print Assumptions w_equal_or_complement_spec.
+
+(** the bitset of every branch, built as the Go code builds it (New(ntips), Set(tip id) for the
+    tips below), is a word-level set standing for the row's [r_bits] *)
+Theorem row_bitset_words : forall t ec r,
+    good t -> branch_row t ec r ->
+    exists w, w_set_all (w_new (length (sorted_tip_names t))) (tip_ids_below (sorted_tip_names t) (snd ec)) = Some w /\
+              wb_ok w /\ to_bits w = r_bits r.
+Proof. exact Proofs.BitsetWords.row_bitset_words. Qed.
+Print Assumptions row_bitset_words.
